@@ -11,16 +11,18 @@ fn usage() -> ! {
     std::process::exit(2)
 }
 
-struct Args { id: String, tier: Tier, replay: Option<String>, worker: Option<(u64, u64)>, out: Option<String>, workers: Option<usize>, cases_scale: f64 }
+struct Args { id: String, tier: Tier, replay: Option<String>, entropy: Option<String>, sub: Option<String>, worker: Option<(u64, u64)>, out: Option<String>, workers: Option<usize>, cases_scale: f64 }
 
 fn parse_args() -> Args {
     let mut it = std::env::args().skip(1);
     let id = it.next().unwrap_or_else(|| usage());
-    let mut a = Args { id, tier: match std::env::var("VERIF_TIER").as_deref() { Ok("thorough") => Tier::Thorough, _ => Tier::Quick }, replay: None, worker: None, out: None, workers: None, cases_scale: 1.0 };
+    let mut a = Args { id, tier: match std::env::var("VERIF_TIER").as_deref() { Ok("thorough") => Tier::Thorough, _ => Tier::Quick }, replay: None, entropy: None, sub: None, worker: None, out: None, workers: None, cases_scale: 1.0 };
     while let Some(x) = it.next() {
         match x.as_str() {
             "--tier" => a.tier = match it.next().as_deref() { Some("quick") => Tier::Quick, Some("thorough") => Tier::Thorough, _ => usage() },
             "--replay" => a.replay = it.next(),
+            "--entropy" => a.entropy = it.next(),
+            "--sub" => a.sub = it.next(),
             "--worker" => { let i = it.next().and_then(|s| s.parse().ok()).unwrap_or_else(|| usage()); let n = it.next().and_then(|s| s.parse().ok()).unwrap_or_else(|| usage()); a.worker = Some((i, n)); }
             "--out" => a.out = it.next(),
             "--workers" => a.workers = it.next().and_then(|s| s.parse().ok()),
@@ -146,6 +148,21 @@ fn main() {
     if args.id == "list" { for p in registry() { println!("{} {}", p.id, p.subs.iter().map(|s| s.name()).collect::<Vec<_>>().join(",")); } return; }
     if let Some((i, n)) = args.worker { run_worker(&args, i, n); return; }
     if let Some(f) = &args.replay { std::process::exit(replay_file(&args, f)); }
+    if let Some(f) = &args.entropy {
+        // an input of the strategy_bytes fuzz target: the bytes are the entropy of the property's strategy
+        let prop = find_prop(&args.id);
+        let kf = listed_for(prop.id);
+        set_listed(kf.iter().filter(|f| f.status == "known").map(|f| f.id.clone()));
+        let data = std::fs::read(f).unwrap_or_else(|e| { eprintln!("{f}: {e}"); std::process::exit(2) });
+        let Some(s) = prop.subs.iter().find(|s| args.sub.as_deref().map(|n| n == s.name()).unwrap_or(true)) else { eprintln!("unknown sub"); std::process::exit(2) };
+        match s.check_from_entropy(args.tier, &data) {
+            None => { println!("no case generated from these bytes"); std::process::exit(0) }
+            Some((Verdict::Fail(m), case, _)) => { println!("FAIL: {m}"); let p = verif_root().join("replays").join("found").join(format!("{}-{}-entropy-{:016x}.json", prop.id, s.name(), acbverif::engine::hash_str(&case.dump()))); let _ = std::fs::create_dir_all(p.parent().unwrap()); let _ = std::fs::write(&p, json::object! { property: prop.id, sub: s.name(), case: case }.pretty(1)); println!("VIOLATION property={} replay={}", prop.id, p.display()); std::process::exit(1) }
+            Some((Verdict::Known(id, d), _, _)) => { println!("KNOWN-FINDING: property={} {id}: {}", prop.id, d.lines().next().unwrap_or("")); std::process::exit(0) }
+            Some((Verdict::Skip(w), _, _)) => { println!("SKIP: {w}"); std::process::exit(0) }
+            Some((Verdict::Pass, case, nt)) => { println!("PASS nontrivial={nt} case-bytes={}", case.dump().len()); std::process::exit(0) }
+        }
+    }
 
     // ---------- parent ----------
     let t0 = Instant::now();
